@@ -305,6 +305,52 @@ def globalstate(prog, an):
     return out
 
 
+def misc_bugclasses(prog, cfg_of_):
+    """ISDIGIT    `s.isdigit()` / isnumeric / isdecimal decides whether a string is an id: False for '-2' although
+                  negative ids are legitimate (C05, C07).
+       CACHEDPROP functools.cached_property / a hand-made once-only cache on a value derived from mutable fields
+                  (full_name embeds the id, which add_node assigns later).
+       SELFREF    `x[k] = y` / `x.f = y` where y is (an alias of) x itself: the structure contains itself."""
+    out = []
+    for f in prog.all_funcs():
+        if f.module.generated:
+            continue
+        cfg = cfg_of_(f)
+        for d in f.node.decorator_list:
+            if 'cached_property' in stmt_text(d):
+                out.append((f, d, 'CACHEDPROP', f"'@{stmt_text(d)}' freezes {f.short} at its first read: the fields it is "
+                            f"computed from (e.g. the id, assigned by add_node afterwards) change later, the cached value "
+                            f"does not"))
+        for n in own_nodes(f.node):
+            if isinstance(n, ast.Call) and isinstance(n.func, ast.Attribute) and n.func.attr in ('isdigit', 'isnumeric', 'isdecimal') \
+                    and not n.args and '/compiler/' not in f.module.relpath:     # (MAL multiplicities are unsigned by grammar)
+                out.append((f, n, 'ISDIGIT', f"'{stmt_text(n, 50)}' is False for negative numbers ('-2'): an id / number "
+                            f"written as text is taken for something else as soon as it is negative (negative asset ids "
+                            f"are legitimate)"))
+            if isinstance(n, ast.Assign) and len(n.targets) == 1 and isinstance(n.targets[0], (ast.Subscript, ast.Attribute)) \
+                    and isinstance(n.value, ast.Name):
+                base = n.targets[0].value
+                if not isinstance(base, ast.Name):
+                    continue
+                node = cfg.node_of(n)
+                if node is None:
+                    continue
+                bdefs = {d.idx for d in cfg.reaching(node, base.id)}
+                if len(bdefs) != 1:
+                    continue
+                for d in cfg.reaching(node, n.value.id):
+                    if d.kind == 'stmt' and isinstance(d.ast, ast.Assign) and len(d.ast.targets) == 1 \
+                            and isinstance(d.ast.targets[0], ast.Name) and d.ast.targets[0].id == n.value.id \
+                            and isinstance(d.ast.value, ast.Name) and d.ast.value.id == base.id \
+                            and {x.idx for x in cfg.reaching(d, base.id)} == bdefs:
+                        out.append((f, n, 'SELFREF',
+                                    f"'{stmt_text(n)}' stores {n.value.id} into {base.id}, and '{stmt_text(d.ast)}' made "
+                                    f"{n.value.id} the very same object ({base.id} is bound once, no copy in between): "
+                                    f"the structure now contains itself (earlier content is overwritten, serialising it "
+                                    f"never ends)"))
+    return out
+
+
 def run(ctx) -> list[Inst]:
     prog, an = ctx.prog, ctx.an
     # ---- positive fixture
@@ -362,6 +408,12 @@ def run(ctx) -> list[Inst]:
         insts.append(Inst(RULE, name, f'GLOBALSTATE: {stmt_text(n, 60)}', 'violation',
                           msg=msg + ': results no longer depend on the inputs only', file=rel,
                           line=getattr(n, 'lineno', 0), props=props))
+    for (f, n, kind, msg) in misc_bugclasses(prog, ctx.cfg):
+        rel = f.module.relpath
+        flagged.add(f.qname)
+        insts.append(Inst(RULE, f.short, f'{kind}: {stmt_text(n, 60)}', 'violation', msg=msg, file=rel,
+                          line=getattr(n, 'lineno', f.node.lineno),
+                          props=tuple(dict.fromkeys(tuple(props_for(f.short, rel)) + (('C10', 'C09') if kind == 'CACHEDPROP' else ())))))
     for f in prog.all_funcs():
         if f.qname in flagged:
             continue
